@@ -76,7 +76,7 @@ def timeout(tier):
     return 900 if tier == "quick" else 5400
 
 
-ZONES = ["[+0:UTC]", "[-5:EST]", "[+5.30:IST]", "[-11]", ""]
+ZONES = ["[+0:UTC]", "[-5:EST]", "[+5.30:IST]", "[-11]", "", "[-3.30:NST]", "[-9.30]", "[+12.45:CHAST]"]
 CLOCK = {"zone": 0, "hours": False}  # how this history's server spells its profile dates (set per history; generations stay ordered)
 
 
